@@ -27,6 +27,23 @@ def _r(rng, lo, hi, nd=2):
     return round(rng.uniform(lo, hi), nd)
 
 
+def _unique_stable_solution(A1, A2, b) -> bool:
+    """Blanchard-Kahn count for x_t = A1 x_{t-1} + A2 x_{t-2} + b e1 e1' E_t x_{t+1} + shocks, with a margin:
+    G0 E_t w_{t+1} = G1 w_t for w_t = (x_t, x_{t-1}, x_{t-2}); exactly k generalized eigenvalues outside the unit
+    circle (k-1 of them infinite), the others inside the circle of radius 0.9."""
+    import scipy.linalg as sla
+    k = A1.shape[0]
+    E11 = np.zeros((k, k)); E11[0, 0] = b
+    Z = np.zeros((k, k)); I = np.eye(k)
+    G0 = np.block([[E11, Z, Z], [Z, I, Z], [Z, Z, I]])
+    G1 = np.block([[I, -A1, -A2], [I, Z, Z], [Z, I, Z]])
+    lam = sla.eigvals(G1, G0)
+    mod = np.array([abs(x) if np.isfinite(x) else np.inf for x in lam])
+    unstable = mod > 1.15
+    stable = mod < 0.9
+    return bool(unstable.sum() == k and stable.sum() == 2 * k)
+
+
 def gen_model(rng) -> dict:
     """A random stationary model: k transition variables (some in logs, lags up to 2, optional lag
     identities), m measurement variables (some in logs, own measurement shocks for most)."""
@@ -47,6 +64,17 @@ def gen_model(rng) -> dict:
         rho = max(abs(np.linalg.eigvals(comp)))
         if rho < 0.9:
             break
+    # optional lead in the first equation (a genuinely forward-looking model); whether the model has a
+    # unique stable solution is found out when it is solved (cases that do not are regenerated)
+    lead_b = None
+    if rng.random() < 0.3:
+        for _ in range(20):
+            a11 = _r(rng, 0.05, 0.5)
+            b = _r(rng, 0.1, 0.35)
+            A1t = A1.copy(); A1t[0, 0] = a11
+            if _unique_stable_solution(A1t, A2, b):
+                A1, lead_b = A1t, b
+                break
     has_shock = [True] * k
     if k >= 2 and rng.random() < 0.25:
         has_shock[rng.randrange(k)] = False           # an equation without a shock
@@ -74,6 +102,9 @@ def gen_model(rng) -> dict:
                     pn = f"a{abs(lag)}_{i+1}{j+1}"
                     params[pn] = float(A[i, j])
                     terms.append(f"{pn}*({lv(j, lag)} - {ssv(j)})")
+        if i == 0 and lead_b is not None:
+            params["b_lead"] = lead_b
+            terms.append(f"b_lead*({lv(0, '+1')} - {ssv(0)})")
         rhs = " + ".join(terms) if terms else "0"
         if has_shock[i]:
             rhs += f" + e{i+1}"
@@ -81,6 +112,7 @@ def gen_model(rng) -> dict:
     tnames = list(names)
     tlog = list(logly)
     steady = {names[i]: ss[i] for i in range(k)}
+    change = {}                      # per-period change of the steady path, in equation space (logs of log-variables)
     if ident:
         j = ident["of"]
         tnames.append("lx"); tlog.append(logly[j])
@@ -96,6 +128,27 @@ def gen_model(rng) -> dict:
         eqs.append(f"fw - phi*ss{j+1} = phi*({names[j]}{{+1}} - ss{j+1});")
         steady["fw"] = phi * ss[j]
     shocks = [f"e{i+1}" for i in range(k) if has_shock[i]]
+    # optional unit root: a random walk (with drift) in levels or in logs
+    trend = None
+    if rng.random() < 0.3:
+        tr_log = rng.random() < 0.5
+        g = rng.choice([0.0, _r(rng, 0.005, 0.05, 3), -_r(rng, 0.005, 0.03, 3)])
+        params["g"] = g
+        tnames.append("tr"); tlog.append(tr_log)
+        steady["tr"] = _r(rng, 0.5, 3.0)
+        change["tr"] = g
+        eqs.append("log(tr) = log(tr{-1}) + g + etr;" if tr_log else "tr = tr{-1} + g + etr;")
+        shocks.append("etr")
+        trend = len(tnames) - 1
+        if rng.random() < 0.5:
+            # a variable that mixes the unit root with a stationary variable: lvl = tr + s*(x1 - ss1) (in logs if tr is)
+            sl = _r(rng, 0.05, 1.0)
+            params["sl"] = sl
+            tnames.append("lvl"); tlog.append(tr_log)
+            steady["lvl"] = steady["tr"]; change["lvl"] = g
+            eqs.append(f"{'log(lvl)' if tr_log else 'lvl'} = {'log(tr)' if tr_log else 'tr'} + sl*({lv(0, 0)} - {ssv(0)});")
+            if rng.random() < 0.6:
+                trend = len(tnames) - 1              # ... and it is what is observed
     # measurement block
     m = rng.choice([1, 2, 2, 3]) if len(tnames) > 1 else rng.choice([1, 1, 2])
     mnames = [f"o{j+1}" for j in range(m)]
@@ -107,16 +160,22 @@ def gen_model(rng) -> dict:
         rng.shuffle(idx)
         for i in idx[:rng.choice([1, 1, 2])]:
             load[i] = _r(rng, 0.3, 1.5) * rng.choice([1, 1, -1])
+        if trend is not None and j == 0 and trend not in load:
+            load[trend] = _r(rng, 0.5, 1.5)           # the unit root is observed (through the first equation)
         c = _r(rng, -1.0, 1.0)
         params[f"c{j+1}"] = c
         terms = [f"c{j+1}"]
         val = c
+        chg = 0.0
         for i, d in load.items():
             pn = f"d{j+1}_{i+1}"
             params[pn] = d
             nm = tnames[i]
             terms.append(f"{pn}*{'log(' + nm + ')' if tlog[i] else nm}")
             val += d * (math.log(steady[nm]) if tlog[i] else steady[nm])
+            chg += d * change.get(nm, 0.0)
+        if chg:
+            change[mnames[j]] = chg
         own = rng.random() < 0.8 or (j > 0 and len(mshocks) < j)      # at most one equation without its own shock
         if own:
             mshocks.append(f"w{j+1}")
@@ -138,24 +197,23 @@ def gen_model(rng) -> dict:
     src += "!measurement-equations\n  " + "\n  ".join(meqs) + "\n"
     stds = {f"std_{s}": _r(rng, 0.2, 1.5) for s in shocks}
     stds.update({f"std_{s}": _r(rng, 0.1, 1.0) for s in mshocks})
-    return {"source": src, "params": params, "steady": steady, "stds": stds,
+    return {"source": src, "params": params, "steady": steady, "change": change, "stds": stds,
             "tnames": tnames, "tlog": tlog, "mnames": mnames, "mlog": mlog,
-            "shocks": shocks, "mshocks": mshocks, "max_lag": 2 if A2.any() else 1}
+            "shocks": shocks, "mshocks": mshocks, "max_lag": 2 if A2.any() else 1,
+            "num_unit_roots": 1 if trend is not None else 0,
+            "lead_eqs": [names[0]] if lead_b is not None else [],
+            "forward_looking": lead_b is not None or "fw" in tnames}
 
 
 def gen_case(rng, max_periods=8) -> dict:
     model = gen_model(rng)
     nper = rng.randint(1, max_periods)
     m = len(model["mnames"])
-    # observations: steady state plus noise; logs positive
+    # observations: deviations from the steady path in equation space (of logs for log-variables);
+    # the levels are formed from the model's steady path when the input databox is built
     data = []
     for j, nm in enumerate(model["mnames"]):
-        st = model["steady"][nm]
-        col = []
-        for _ in range(nper):
-            z = round(rng.gauss(0, 1.0), 3)
-            col.append(round(st * math.exp(0.3 * z), 6) if model["mlog"][j] else round(st + z, 6))
-        data.append(col)
+        data.append([round((0.3 if model["mlog"][j] else 1.0) * rng.gauss(0, 1.0), 3) for _ in range(nper)])
     # missing-data mask
     mask = [[rng.random() < 0.75 for _ in range(nper)] for _ in range(m)]
     q = rng.random()
@@ -177,6 +235,10 @@ def gen_case(rng, max_periods=8) -> dict:
         mask = [[False] * nper for _ in range(m)]
     elif q < 0.6:                             # everything observed
         mask = [[True] * nper for _ in range(m)]
+    if model["num_unit_roots"] and not any(mask[0]):
+        # the unit root is observed through the first measurement variable: without any observation of it the
+        # unknown initial condition is not identified and level / deviation results are arbitrary
+        mask[0][rng.randrange(nper)] = True
     # time-varying stds supplied as data
     tv_stds = {}
     if rng.random() < 0.5:
@@ -189,15 +251,30 @@ def gen_case(rng, max_periods=8) -> dict:
         for nm in model["shocks"] + model["mshocks"]:
             if rng.random() < 0.6:
                 shock_means[nm] = [(_r(rng, -0.5, 0.5) if rng.random() < 0.8 else None) for _ in range(nper)]
+    # anticipated shocks supplied as data (ant_<shock>), mostly dated after the first period; they matter
+    # before they hit only in forward-looking models
+    ant = {}
+    if model["shocks"] and rng.random() < (0.6 if model["forward_looking"] else 0.15):
+        for nm in model["shocks"]:
+            if rng.random() < 0.6:
+                col = [0.0] * nper
+                for _ in range(rng.choice([1, 1, 2])):
+                    t = rng.randrange(nper) if nper < 3 or rng.random() < 0.2 else rng.randrange(1, nper)
+                    col[t] = _r(rng, -1.0, 1.0)
+                if any(col):
+                    ant[nm] = col
     return {
         "model": model, "nper": nper, "start": [rng.choice([1, 4, 12]), rng.randint(1990, 2030), 1],
-        "data": data, "mask": mask,
+        "data": data, "mask": mask, "ant": ant,
         "deviation": rng.random() < 0.4,
         "rescale_variance": rng.random() < 0.4,
         "tv_stds": tv_stds, "shock_means": shock_means,
         # observations outside the filter span (must be ignored: the data are clipped to the span)
         "pad": [rng.choice([0, 0, 1, 2]), rng.choice([0, 0, 1, 3])],
         "pad_value": round(rng.uniform(0.5, 5.0), 3),
+        # public calls made on the same model object before the filter run that is compared (the result must not
+        # depend on them): "simulate" = a simulation with anticipated shocks, "filter" = a filter run in the other mode
+        "pre_calls": rng.choice([[], [], ["simulate"], ["simulate", "filter"], ["filter"]]),
     }
 
 
@@ -210,9 +287,18 @@ def build_model(model: dict):
     m = ir.Simultaneous.from_string(model["source"])
     m.assign(**model["params"])
     m.assign(**model["stds"])
-    m.assign(**model["steady"])
-    with contextlib.redirect_stdout(io.StringIO()):
-        m.steady()
+    change = model.get("change", {})
+    if change:
+        # steady path with growth: (level, change) pairs; the change of a log-variable is a ratio
+        lg = dict(zip(model["tnames"] + model["mnames"], model["tlog"] + model["mlog"]))
+        m.assign(**{nm: ((v, math.exp(change[nm]) if lg[nm] else change[nm]) if nm in change else v)
+                    for nm, v in model["steady"].items()})
+        if not m.check_steady(when_fails="silent"):
+            raise RuntimeError("generated steady state does not satisfy the model (harness bug)")
+    else:
+        m.assign(**model["steady"])
+        with contextlib.redirect_stdout(io.StringIO()):
+            m.steady()
     m.solve()
     return m
 
@@ -231,6 +317,7 @@ def input_databox(m, case: dict):
     span = start >> (start + case["nper"] - 1)
     dev = case["deviation"]
     db = ir.Databox.steady(m, span, deviation=dev)
+    steady_db = db if not dev else ir.Databox.steady(m, span, deviation=False)
     pb, pa = case.get("pad", [0, 0])
     junk = float(case.get("pad_value", 1.0))
     wide = (start - pb) >> (start + case["nper"] - 1 + pa)
@@ -238,28 +325,32 @@ def input_databox(m, case: dict):
     def padded(vals):
         return np.array([junk] * pb + list(vals) + [junk] * pa, dtype=float)
     for j, nm in enumerate(model["mnames"]):
-        st = model["steady"][nm]
+        st = _arr(steady_db[nm], span)
         vals = []
         for t in range(case["nper"]):
             if not case["mask"][j][t]:
                 vals.append(np.nan)
                 continue
-            v = case["data"][j][t]
-            if dev:
-                v = v / st if model["mlog"][j] else v - st
-            vals.append(v)
+            d = case["data"][j][t]              # deviation from the steady path, in equation space
+            if model["mlog"][j]:
+                vals.append(math.exp(d) if dev else float(st[t]) * math.exp(d))
+            else:
+                vals.append(d if dev else float(st[t]) + d)
         db[nm] = ir.Series(periods=wide, values=padded(vals))
     for nm, col in case["tv_stds"].items():
         db[nm] = ir.Series(periods=wide, values=padded([np.nan if v is None else v for v in col]))
     for nm, col in case["shock_means"].items():
         db[nm] = ir.Series(periods=wide, values=padded([np.nan if v is None else v for v in col]))
+    for nm, col in case.get("ant", {}).items():
+        db["ant_" + nm] = ir.Series(periods=span, values=np.array(col, dtype=float))
     return db, span
 
 
 def kf_options(case: dict) -> dict:
     return {
         "deviation": case["deviation"], "rescale_variance": case["rescale_variance"],
-        "stds_from_data": bool(case["tv_stds"]), "shocks_from_data": bool(case["shock_means"]),
+        "stds_from_data": bool(case["tv_stds"]),
+        "shocks_from_data": bool(case["shock_means"]) or bool(case.get("ant")),
     }
 
 
@@ -282,6 +373,7 @@ def run_impl(case: dict) -> dict:
         r = orig(*a, **k)
         rec["init"] = r
         return r
+    pre_calls(m, case, db, span)
     K._initializers.initialize = wrap
     try:
         out, info = m.kalman_filter(db, span, return_info=True, **kf_options(case))
@@ -302,8 +394,65 @@ def run_impl(case: dict) -> dict:
         "num_unit_roots": int(sol.num_unit_roots),
         "init_med": np.array(rec["init"][0]).reshape(-1), "init_mse": np.array(rec["init"][1]),
         "unknown_init": rec["init"][2],
+        "T_square": np.array(sol.T), "xi_tokens": [(qid_to_name[t.qid], int(t.shift)) for t in vec.transition_variables],
     }
+    res["v_impact"] = anticipated_impact(case, res)
     return res
+
+
+def pre_calls(m, case: dict, db, span) -> None:
+    """The public calls of case["pre_calls"], made on the model object before the run that is checked."""
+    import irispie as ir
+    model = case["model"]
+    for what in case.get("pre_calls", []):
+        if what == "simulate":
+            lag = model["max_lag"]
+            pre_db = ir.Databox.steady(m, (span.start - lag) >> span.end, deviation=case["deviation"])
+            vals = np.zeros(case["nper"]); vals[-1] = 0.7; vals[case["nper"] // 2] = -0.4
+            for nm in model["shocks"]:
+                pre_db["ant_" + nm] = ir.Series(periods=span, values=vals.copy())
+            m.simulate(pre_db, span, deviation=case["deviation"])
+        elif what == "filter":
+            other = dict(case); other["deviation"] = not case["deviation"]
+            db2, _ = input_databox(m, other)
+            m.kalman_filter(db2, span, return_info=True, **kf_options(other))
+
+
+def anticipated_impact(case: dict, impl: dict):
+    """Per period, the impact of the anticipated shocks in the data on the filter's state vector alpha,
+    obtained WITHOUT the filter's own code path: a fresh model is simulated (public simulate, deviation mode,
+    zero initial condition, anticipated shocks only), the period-t impact on the square state vector xi is
+    xi_t - T xi_{t-1}, and alpha = Ua^-1 xi.  None when the data contain no anticipated shock."""
+    import irispie as ir
+    ant = case.get("ant", {})
+    if not ant:
+        return None
+    model = case["model"]
+    m2 = build_model(model)
+    span = impl["span"]
+    T = case["nper"]
+    maxlag = max([-sh for _, sh in impl["xi_tokens"]] + [0]) + 1
+    pre_span = (span.start - maxlag) >> span.end
+    pre_db = ir.Databox.steady(m2, pre_span, deviation=True)
+    for nm, col in ant.items():
+        pre_db["ant_" + nm] = ir.Series(periods=span, values=np.array(col, dtype=float))
+    sim = m2.simulate(pre_db, span, deviation=True)
+    if isinstance(sim, tuple):
+        sim = sim[0]
+    lg = dict(zip(model["tnames"], model["tlog"]))
+    wide = (span.start - maxlag) >> span.end
+    paths = {}
+    for nm in model["tnames"]:
+        v = _arr(sim[nm], wide)
+        v = np.where(np.isnan(v), 1.0 if lg[nm] else 0.0, v)          # before the simulation span: steady deviation
+        paths[nm] = np.log(v) if lg[nm] else v
+    def xi_at(t):                                                     # t = -1 .. T-1 relative to span.start
+        return np.array([paths[nm][maxlag + t + sh] for nm, sh in impl["xi_tokens"]], dtype=float)
+    out = []
+    for t in range(T):
+        v_sq = xi_at(t) - impl["T_square"] @ xi_at(t - 1)
+        out.append(np.linalg.solve(impl["Ua"], v_sq))
+    return out
 
 
 def log_name(case, nm):
@@ -313,6 +462,9 @@ def log_name(case, nm):
 
 
 def cond_ok(impl) -> bool:
+    info = impl.get("info")
+    if info is not None and not (np.isfinite(float(info["neg_log_likelihood"])) and float(info["var_scale"]) > 1e-10):
+        return False          # e.g. rescale_variance with a perfect fit (var_scale = 0): nothing to compare
     for F in impl["out"]["predict_mse_obs"][0]:
         F = np.asarray(F)
         if F.size and (not np.all(np.isfinite(F)) or np.linalg.cond(F) > COND_MAX or np.min(np.diag(F)) < VAR_MIN):
@@ -325,12 +477,14 @@ def cond_ok(impl) -> bool:
 # ------------------------------------------------------------------------------------------------
 
 def period_inputs(case: dict, impl: dict) -> list[dict]:
-    """Per period: mask, y (logs of log-variables; deviations when deviation=True), stds, shock means.
-    Computed from the case itself (not from the implementation's intermediate arrays)."""
+    """Per period: mask, y (logs of log-variables; deviations when deviation=True), stds, shock means,
+    anticipated shock values.  Computed from the case and the input databox the harness built
+    (impl["db"]), not from the implementation's intermediate arrays."""
     model = case["model"]
     mlog = dict(zip(model["mnames"], model["mlog"]))
     dev = case["deviation"]
     out = []
+    cols = {nm: _arr(impl["db"][nm], impl["span"]) for nm in impl["y_names"]}
     for t in range(case["nper"]):
         mask, y = [], []
         for nm in impl["y_names"]:
@@ -340,11 +494,8 @@ def period_inputs(case: dict, impl: dict) -> list[dict]:
             if not ob:
                 y.append(0.0)
                 continue
-            v = case["data"][j][t]
-            st = model["steady"][nm]
-            if dev:
-                v = v / st if mlog[nm] else v - st
-            y.append(float(np.log(v)) if mlog[nm] else float(v))
+            v = float(cols[nm][t])
+            y.append(float(np.log(v)) if mlog[nm] else v)
 
         def std_of(sh):
             col = case["tv_stds"].get(f"std_{sh}")
@@ -361,6 +512,7 @@ def period_inputs(case: dict, impl: dict) -> list[dict]:
             "mask": mask, "y": y,
             "std_u": [std_of(s) for s in impl["u_names"]], "std_w": [std_of(s) for s in impl["w_names"]],
             "u0": [mean_of(s) for s in impl["u_names"]], "w0": [mean_of(s) for s in impl["w_names"]],
+            "ant": [float(case.get("ant", {}).get(s, [0.0] * case["nper"])[t]) for s in impl["u_names"]],
         })
     return out
 
@@ -498,15 +650,25 @@ def coq_case(idx: int, case: dict, impl: dict, expected) -> str:
            f"{q_col(impl['Ka'])} {q_mat(impl['Za'])} {q_mat(impl['H']) if nw else q_mat(np.zeros((nyf,0)))} {q_col(impl['D'])} "
            f"{q_mat(impl['Ua'])} [{'; '.join(str(i) + '%nat' for i in impl['curr_idx'])}])")
     pds = []
-    for p in pin:
+    vimp = impl.get("v_impact")
+    for t, p in enumerate(pin):
+        v = "None" if vimp is None else f"(Some {q_col(vimp[t])})"
         pds.append(f"(@mkPdata QMat {n} {nw} {nu} {nyf} [{'; '.join(coq_bool(b) for b in p['mask'])}] {q_col(p['y'])} "
-                   f"{q_list(p['std_u'])} {q_list(p['std_w'])} {q_col(p['u0'])} {q_col(p['w0'])} None)")
+                   f"{q_list(p['std_u'])} {q_list(p['std_w'])} {q_col(p['u0'])} {q_col(p['w0'])} {v})")
+    nur = int(impl["num_unit_roots"])
+    ns = n - nur
+    # fixed_unknown: the unknown part of the initial state is its unit-root block, loading eye(n, nur)
+    unknown = f"(Some {q_mat(np.eye(n, nur))})" if nur else "None"
+    Ka_s = np.zeros(ns) if case["deviation"] else impl["Ka"][nur:]
     exp = "[" + "; ".join("None" if v is None else f"Some {q_lit(v)}" for v in expected) + "]"
     return (f"Definition sol_{idx} := {sol}.\n"
             f"Definition data_{idx} := [{'; '.join(pds)}].\n"
             f"Definition exp_{idx} : list (option (car (cs_ops C))) := {exp}.\n"
-            f"Definition res_{idx} := run_case C {n} {nw} {nu} {nyf} {nxi} {coq_bool(case['deviation'])} "
-            f"{coq_bool(case['rescale_variance'])} sol_{idx} {q_col(impl['init_med'])} {q_mat(impl['init_mse'])} "
+            f"Definition res_{idx} := run_case C {n} {nw} {nu} {nyf} {nxi} {nur} {ns} {coq_bool(case['deviation'])} "
+            f"{coq_bool(case['rescale_variance'])} sol_{idx} {q_col(impl['init_med'])} {q_mat(impl['init_mse'])} {unknown} "
+            f"{q_mat(impl['Ta'][nur:, nur:]) if ns else '[]'} {q_col(Ka_s)} "
+            f"{q_mat(impl['Pa'][nur:, :]) if ns and nu else q_mat(np.zeros((ns, 0)))} "
+            f"{q_col(impl['init_med'][nur:])} {q_mat(impl['init_mse'][nur:, nur:]) if ns else '[]'} "
             f"{q_list([case['model']['stds']['std_' + s] for s in impl['u_names']])} data_{idx} exp_{idx}.\n"
             f"Eval vm_compute in res_{idx}.\n")
 
@@ -634,6 +796,8 @@ def degenerate_case(case: dict) -> bool:
     try:
         m = build_model(case["model"])
         sol = public_solution(m)
+        sol["db"], sol["span"] = input_databox(m, case)
+        sol["v_impact"] = anticipated_impact(case, sol)
         ref = batch_reference(case, sol, period_inputs(case, sol))
     except np.linalg.LinAlgError:
         return True
@@ -695,8 +859,10 @@ def collect_cases(ctx, n: int, max_periods: int, notes: dict) -> list:
                 continue
             notes.setdefault("impl_raised", []).append({"case": case, "error": f"{type(e).__name__}: {e}"[:300]})
             continue
-        if impl["num_unit_roots"] or impl["unknown_init"] is not None:
-            notes["skipped_unit_root"] = notes.get("skipped_unit_root", 0) + 1
+        if impl["num_unit_roots"] != case["model"]["num_unit_roots"]:
+            notes.setdefault("impl_raised", []).append(
+                {"case": case, "error": f"the solution reports {impl['num_unit_roots']} unit roots, the model has "
+                                        f"{case['model']['num_unit_roots']}"})
             continue
         if not cond_ok(impl):
             notes["skipped_ill_conditioned"] = notes.get("skipped_ill_conditioned", 0) + 1
@@ -738,6 +904,21 @@ def passthrough_problems(case, impl) -> list[str]:
     pin = period_inputs(case, impl)
     model = case["model"]
     bad = []
+    # layout of the initial condition: unit-root block first, zero mean and MSE there, unknown part = that block
+    nur = int(impl["num_unit_roots"]); n = impl["Ta"].shape[0]
+    if nur:
+        if np.any(impl["init_med"][:nur] != 0) or np.any(impl["init_mse"][:nur, :] != 0) or np.any(impl["init_mse"][:, :nur] != 0):
+            bad.append("the initial mean / MSE of the unit-root block is not zero (diffuse_method=fixed_unknown)")
+        ui = impl["unknown_init"]
+        if ui is None or np.asarray(ui).shape != (n, nur) or np.any(np.asarray(ui) != np.eye(n, nur)):
+            bad.append("the loading of the unknown initial condition is not eye(num_alpha, num_unit_roots)")
+    elif impl["unknown_init"] is not None:
+        bad.append("an unknown initial condition is reported for a model without unit roots")
+    for sh, col in case.get("ant", {}).items():
+        for box in ("predict_med", "update_med", "smooth_med"):
+            got = _arr(out[box]["ant_" + sh], span)
+            if not np.allclose(got, np.array(col, dtype=float), rtol=0, atol=1e-12):
+                bad.append(f"{box}:ant_{sh} is not the anticipated shock supplied in the data")
     for box in ("update_med", "smooth_med"):
         for j, nm in enumerate(impl["y_names"]):
             col = _arr(out[box][log_name(case, nm)], span)
@@ -802,7 +983,8 @@ def correspondence(ctx, n_cases: int, n_exact: int, max_periods: int, pid: str, 
     prepared = []
     dist = {"n_alpha": {}, "n_periods": {}, "n_measurement": {}, "deviation": 0, "rescale_variance": 0,
             "time_varying_std": 0, "shock_means": 0, "log_variables": 0, "fully_missing_period": 0,
-            "no_observation_at_all": 0, "observed_cells": 0, "missing_cells": 0}
+            "no_observation_at_all": 0, "observed_cells": 0, "missing_cells": 0,
+            "unit_root": 0, "anticipated_shocks": 0, "forward_looking": 0}
     keys = set()
     for case, impl in pairs + exact_pairs:
         vals, labels, problems = expected_outputs(case, impl)
@@ -820,6 +1002,8 @@ def correspondence(ctx, n_cases: int, n_exact: int, max_periods: int, pid: str, 
         dist["deviation"] += bool(case["deviation"]); dist["rescale_variance"] += bool(case["rescale_variance"])
         dist["time_varying_std"] += bool(case["tv_stds"]); dist["shock_means"] += bool(case["shock_means"])
         dist["log_variables"] += bool(any(case["model"]["tlog"]) or any(case["model"]["mlog"]))
+        dist["unit_root"] += bool(impl["num_unit_roots"]); dist["anticipated_shocks"] += bool(case.get("ant"))
+        dist["forward_looking"] += bool(case["model"].get("forward_looking"))
         cols = list(zip(*case["mask"]))
         dist["fully_missing_period"] += any(not any(c) for c in cols)
         dist["no_observation_at_all"] += not any(any(c) for c in cols)
@@ -927,25 +1111,26 @@ def _lv(case, nm, v):
     return np.log(v) if lg[nm] else v
 
 
-def _steady_lv(case, nm):
-    return _lv(case, nm, case["model"]["steady"][nm])
-
-
-def equation_residuals(case: dict, box, span, deviation: bool):
-    """Residuals of the model's own equations (as generated, see gen_model) on a databox of results.
-    Returns (measurement residuals {(name, t): r} on observed cells, transition residuals {(name, t): r})."""
+def equation_residuals(case: dict, box, span, deviation: bool, steady_db):
+    """Residuals of the model's own equations (as generated, see gen_model) on a databox of results;
+    `steady_db` is the model's steady path in levels over `span`.  Equations with a lead hold in
+    expectation only and are skipped.  Returns (measurement residuals {(name, t): r} on observed cells,
+    transition residuals {(name, t): r})."""
     model = case["model"]
     P = model["params"]
     nper = case["nper"]
+    names = model["tnames"] + model["mnames"]
     X = {nm: np.asarray(box[nm].get_data(span), dtype=float).reshape(-1)
-         for nm in model["tnames"] + model["mnames"] + model["shocks"] + model["mshocks"]}
+         for nm in names + model["shocks"] + model["mshocks"]}
+    S = {nm: _arr(steady_db[nm], span) for nm in names}
+    ANT = {sh: np.array(case.get("ant", {}).get(sh, [0.0] * nper), dtype=float) for sh in model["shocks"]}
 
     def dev(nm, t):
-        """variable minus steady state, in equation space"""
+        """variable minus steady path, in equation space"""
         v = X[nm][t]
         if deviation:
             return _lv(case, nm, v)                 # deviations: x - ss, or log(x/ss) = log of the ratio
-        return _lv(case, nm, v) - _steady_lv(case, nm)
+        return _lv(case, nm, v) - _lv(case, nm, S[nm][t])
     meas, trans = {}, {}
     for j, nm in enumerate(model["mnames"]):
         for t in range(nper):
@@ -959,9 +1144,11 @@ def equation_residuals(case: dict, box, span, deviation: bool):
             if f"w{j+1}" in model["mshocks"]:
                 rhs += X[f"w{j+1}"][t]
             meas[(nm, t)] = dev(nm, t) - rhs
-    k = len([n for n in model["tnames"] if n not in ("lx", "fw")])
+    k = len([n for n in model["tnames"] if n not in ("lx", "fw", "tr", "lvl")])
     for i in range(k):
         nm = model["tnames"][i]
+        if nm in model.get("lead_eqs", []):
+            continue
         for t in range(nper):
             rhs = 0.0
             ok = True
@@ -977,8 +1164,14 @@ def equation_residuals(case: dict, box, span, deviation: bool):
             if not ok:
                 continue
             if f"e{i+1}" in model["shocks"]:
-                rhs += X[f"e{i+1}"][t]
+                rhs += X[f"e{i+1}"][t] + ANT[f"e{i+1}"][t]
             trans[(nm, t)] = dev(nm, t) - rhs
+    if "tr" in model["tnames"]:
+        for t in range(1, nper):
+            trans[("tr", t)] = dev("tr", t) - dev("tr", t - 1) - X["etr"][t] - ANT["etr"][t]
+    if "lvl" in model["tnames"]:
+        for t in range(nper):
+            trans[("lvl", t)] = dev("lvl", t) - dev("tr", t) - P["sl"] * dev(model["tnames"][0], t)
     if "lx" in model["tnames"]:
         src = None
         for line in model["source"].splitlines():
@@ -986,9 +1179,23 @@ def equation_residuals(case: dict, box, span, deviation: bool):
             if m:
                 src = m.group(1)
         for t in range(1, nper):
-            if deviation or True:
-                trans[("lx", t)] = X["lx"][t] - X[src][t - 1]
+            trans[("lx", t)] = X["lx"][t] - X[src][t - 1]
     return meas, trans
+
+
+def _compare_runs(case, out_a, info_a, out_b, info_b, span, tol):
+    """First difference between two filter runs that must coincide: (box, name, t, a, b) or None."""
+    model = case["model"]
+    for boxname in ("predict_med", "update_med", "smooth_med"):
+        for nm in model["tnames"] + model["shocks"] + model["mshocks"]:
+            a = _arr(out_a[boxname][nm], span)
+            b = _arr(out_b[boxname][nm], span)
+            for t in range(len(a)):
+                if not close(float(b[t]), float(a[t]), tol):
+                    return boxname, nm, t, float(a[t]), float(b[t])
+    if not close(float(info_b["neg_log_likelihood"]), float(info_a["neg_log_likelihood"]), tol):
+        return "info", "neg_log_likelihood", 0, float(info_a["neg_log_likelihood"]), float(info_b["neg_log_likelihood"])
+    return None
 
 
 def falsify_c08_case(case: dict, tol=1e-7) -> list[Failure]:
@@ -1013,8 +1220,9 @@ def falsify_c08_case(case: dict, tol=1e-7) -> list[Failure]:
         return [Failure("kalman_filter:raises", f"kalman_filter raises {type(e).__name__}: {e}", key_in, repr(e)[:300],
                         "filter output", repro)]
     dev = case["deviation"]
-    if not cond_ok({"out": out}):
+    if not cond_ok({"out": out, "info": info}):
         return []                      # near-singular prediction MSE: outside the tolerance regime
+    steady_db = ir.Databox.steady(m, span, deviation=False)
     for boxname in ("smooth_med", "update_med"):
         box = out[boxname]
         # 1. data reproduced where observed
@@ -1027,7 +1235,7 @@ def falsify_c08_case(case: dict, tol=1e-7) -> list[Failure]:
                                          key_in, {"name": nm, "t": t, "got": float(got[t])}, float(want[t]), repro))
         # 2. measurement equations (both boxes), transition equations (smoothed only)
         try:
-            meas, trans = equation_residuals(case, box, span, dev)
+            meas, trans = equation_residuals(case, box, span, dev, steady_db)
         except Exception as e:  # noqa
             fails.append(Failure(f"{boxname}:unreadable", f"{boxname} cannot be read: {type(e).__name__}: {e}", key_in))
             continue
@@ -1049,6 +1257,9 @@ def falsify_c08_case(case: dict, tol=1e-7) -> list[Failure]:
         sim_db = ir.Databox()
         for nm in model["tnames"] + model["mnames"] + model["shocks"] + model["mshocks"]:
             sim_db[nm] = sm[nm].copy()
+        for nm in model["shocks"]:
+            if "ant_" + nm in sm.keys():
+                sim_db["ant_" + nm] = sm["ant_" + nm].copy()
         for nm in model["mnames"]:
             # measurement variables are outputs of the simulation; drop them from the input
             del sim_db[nm]
@@ -1093,7 +1304,7 @@ def falsify_c08_case(case: dict, tol=1e-7) -> list[Failure]:
             for nm in model["tnames"] + model["shocks"] + model["mshocks"]:
                 a = _arr(lev[boxname][nm], span)
                 b = _arr(dv[boxname][nm], span)
-                st = model["steady"].get(nm, 0.0)
+                st = _arr(steady_db[nm], span) if nm in model["tnames"] else np.zeros(len(a))
                 want = a / st if lg.get(nm, False) else a - st
                 bad = [t for t in range(len(a)) if not close(float(b[t]), float(want[t]), tol)]
                 if bad:
@@ -1115,6 +1326,35 @@ def falsify_c08_case(case: dict, tol=1e-7) -> list[Failure]:
                                  key_in, float(dinfo["neg_log_likelihood"]), float(linfo["neg_log_likelihood"]), repro))
     except Exception as e:  # noqa
         fails.append(Failure("deviation:raises", f"the other mode raises {type(e).__name__}: {e}", key_in, repr(e)[:300]))
+    # 5. the results do not depend on what was called before on the model object
+    try:
+        # (a) the same object again, after the re-simulation and the other-mode filter run above
+        out3, info3 = m.kalman_filter(db, span, return_info=True, **opts)
+        d = _compare_runs(case, out, info, out3, info3, span, tol)
+        if d:
+            fails.append(Failure("history:filter-after-simulate",
+                                 f"kalman_filter returns a different {d[0]}[{d[1]}] when it is called again after simulate() "
+                                 f"on the same model", key_in, {"t": d[2], "second_call": d[4]}, d[3], repro))
+        # (b) a freshly built model on which an ordinary simulation (with anticipated shocks) and/or a filter
+        #     run on other data was made first
+        m2 = build_model(model)
+        pre_calls(m2, dict(case, pre_calls=["simulate", "filter"] if case["nper"] % 2 else ["simulate"]), db, span)
+        out4, info4 = m2.kalman_filter(db, span, return_info=True, **opts)
+        d = _compare_runs(case, out, info, out4, info4, span, tol)
+        if d:
+            fails.append(Failure("history:simulate-before-filter",
+                                 f"kalman_filter returns a different {d[0]}[{d[1]}] on a model on which simulate() was "
+                                 f"called before", key_in, {"t": d[2], "after_simulate": d[4]}, d[3], repro))
+        else:
+            # equations on this second run as well (it must be a simulation of the model too)
+            meas, trans = equation_residuals(case, out4["smooth_med"], span, dev, steady_db)
+            worst = max(trans.items(), key=lambda kv: abs(kv[1]) if kv[1] == kv[1] else 1e300, default=None)
+            if worst and not (abs(worst[1]) <= tol):
+                fails.append(Failure("history:transition-equation",
+                                     f"transition equation of {worst[0][0]} does not hold on smooth_med when simulate() was "
+                                     f"called before the filter", key_in, {"residual": float(worst[1])}, 0.0, repro))
+    except Exception as e:  # noqa
+        fails.append(Failure("history:raises", f"a second call sequence raises {type(e).__name__}: {e}", key_in, repr(e)[:300]))
     return fails
 
 
@@ -1135,8 +1375,14 @@ def batch_reference(case: dict, sol: dict, pin: list[dict]) -> dict:
     model = case["model"]
     su0 = np.array([model["stds"][f"std_{s}"] for s in sol["u_names"]], dtype=float)
     Sig0 = Pa @ np.diag(su0 ** 2) @ Pa.T
-    C0 = sla.solve_discrete_lyapunov(Ta, Sig0) if n else np.zeros((0, 0))
-    m0 = np.linalg.solve(np.eye(n) - Ta, Ka)
+    # initial law: the unit-root block (first nur states) is a fixed unknown delta (estimated below by GLS on the
+    # whole sample, as diffuse_method="fixed_unknown" does), the stable block has its unconditional law
+    nur = int(sol.get("num_unit_roots", 0))
+    C0 = np.zeros((n, n)); m0 = np.zeros(n)
+    if n > nur:
+        C0[nur:, nur:] = sla.solve_discrete_lyapunov(Ta[nur:, nur:], Sig0[nur:, nur:])
+        m0[nur:] = np.linalg.solve(np.eye(n - nur) - Ta[nur:, nur:], Ka[nur:])
+    vimp = sol.get("v_impact")        # impact of anticipated shocks (deterministic), None if there are none
     dz = n + T * nu + T * nw
     mz = np.zeros(dz); Sz = np.zeros((dz, dz))
     mz[:n] = m0; Sz[:n, :n] = C0
@@ -1151,7 +1397,7 @@ def batch_reference(case: dict, sol: dict, pin: list[dict]) -> dict:
     for t in range(T):
         At = Ta @ Ap
         At[:, n + t * nu:n + (t + 1) * nu] += Pa
-        ct = Ta @ cp + Ka
+        ct = Ta @ cp + Ka + (vimp[t] if vimp is not None else 0.0)
         A.append(At); c.append(ct); Ap, cp = At, ct
     Ly = []; cy = []
     for t in range(T):
@@ -1200,8 +1446,21 @@ def batch_reference(case: dict, sol: dict, pin: list[dict]) -> dict:
             V = V - Cqy @ np.linalg.solve(cnd["S"], Cqy.T)
         return mu, np.sqrt(np.maximum(np.diag(V), 0.0))
 
+    gls_cond = 1.0
+    if nur:
+        pre = condition(T - 1)
+        if pre["N"]:
+            Mb = pre["Lo"][:, :nur]
+            Si_M = np.linalg.solve(pre["S"], Mb)
+            G = Mb.T @ Si_M
+            gls_cond = float(np.linalg.cond(G)) if np.all(np.isfinite(G)) and np.min(np.abs(np.diag(G))) > 0 else float("inf")
+            if gls_cond < COND_MAX:
+                delta = np.linalg.solve(G, Si_M.T @ pre["e"])
+                mz[:nur] += delta                  # everything below is conditional on delta = its GLS estimate
+        else:
+            gls_cond = float("inf")                # the unit roots are not identified by the data
     full = condition(T - 1)
-    ref = {"N": full["N"], "cond": full.get("cond", 1.0)}
+    ref = {"N": full["N"], "cond": max(full.get("cond", 1.0), gls_cond)}
     log2pi = math.log(2 * math.pi)
 
     def nll_of(cnd):
@@ -1209,6 +1468,10 @@ def batch_reference(case: dict, sol: dict, pin: list[dict]) -> dict:
     vs = 1.0
     if case["rescale_variance"] and full["N"]:
         vs = full["q"] / full["N"]
+        if not vs > 1e-10:
+            # a perfect fit (e.g. as many unknown initial conditions as observations): var_scale = 0, no density
+            ref["cond"] = float("inf"); ref["conds"] = []; ref["nll"] = float("nan")
+            return ref
         ref["nll"] = 0.5 * (full["N"] * log2pi + full["logdet"] + full["N"] * math.log(vs) + full["N"])
     else:
         ref["nll"] = nll_of(full)
@@ -1260,6 +1523,7 @@ def public_solution(m) -> dict:
         "u_names": [q2n[t.qid] for t in vec.transition_shocks],
         "w_names": [q2n[t.qid] for t in vec.measurement_shocks],
         "num_unit_roots": int(sol.num_unit_roots),
+        "T_square": np.array(sol.T), "xi_tokens": [(q2n[t.qid], int(t.shift)) for t in vec.transition_variables],
     }
 
 
@@ -1283,8 +1547,11 @@ def falsify_c03_case(case: dict, tol=1e-7) -> list[Failure]:
         return [Failure("kalman_filter:raises", f"kalman_filter raises {type(e).__name__}: {e}", case, repr(e)[:300],
                         "filter output", repro)]
     sol = public_solution(m)
-    if sol["num_unit_roots"]:
-        return []
+    if sol["num_unit_roots"] != model["num_unit_roots"]:
+        return [Failure("solution:unit-roots", f"the solution reports {sol['num_unit_roots']} unit roots, the model has "
+                        f"{model['num_unit_roots']}", case, sol["num_unit_roots"], model["num_unit_roots"], repro)]
+    sol["db"], sol["span"] = db, span
+    sol["v_impact"] = anticipated_impact(case, sol)
     pin = period_inputs(case, sol)
     try:
         ref = batch_reference(case, sol, pin)
@@ -1337,6 +1604,75 @@ def falsify_c03_case(case: dict, tol=1e-7) -> list[Failure]:
                                          f"{'up to t-1' if kind == 'predict' else 'up to t' if kind == 'update' else 'of all periods'}",
                                          case, {"name": ln, "t": t, "got": g}, w, repro))
                     break
+    # a model with two parameter variants (the second with all stds multiplied by 1.5): each variant must
+    # return what the corresponding single-variant model returns
+    try:
+        mdl2 = dict(model); mdl2["stds"] = {k: v * 1.5 for k, v in model["stds"].items()}
+        mb = build_model(mdl2)
+        dbv = db.copy()
+        for k in model["stds"]:
+            if k not in case["tv_stds"] and k in dbv.keys():
+                del dbv[k]                      # let the std values come from the model (per variant)
+        outs, infos = [], []
+        for mm in (m, mb):
+            o, i = mm.kalman_filter(dbv, span, return_info=True, **opts)
+            outs.append(o); infos.append(i)
+        mv = m.copy()
+        mv.alter_num_variants(2)
+        mv.assign(**{k: [v, v * 1.5] for k, v in model["stds"].items()})
+        mv.solve()
+        ov, iv = mv.kalman_filter(dbv, span, return_info=True, **opts)
+        for vid in (0, 1):
+            bad = None
+            if not close(float(iv[vid]["neg_log_likelihood"]), float(infos[vid]["neg_log_likelihood"]), tol):
+                bad = ("neg_log_likelihood", float(iv[vid]["neg_log_likelihood"]), float(infos[vid]["neg_log_likelihood"]))
+            elif not close(float(iv[vid]["var_scale"]), float(infos[vid]["var_scale"]), tol):
+                bad = ("var_scale", float(iv[vid]["var_scale"]), float(infos[vid]["var_scale"]))
+            else:
+                for boxname in ("smooth_med", "smooth_std", "predict_std"):
+                    for nm in model["tnames"]:
+                        ln = log_name(case, nm)
+                        a = np.asarray(ov[boxname][ln].get_data(span), dtype=float)[:, vid]
+                        b = _arr(outs[vid][boxname][ln], span)
+                        if not all(close(float(x), float(y), tol) for x, y in zip(a, b)):
+                            bad = (f"{boxname}[{ln}]", a.tolist(), b.tolist())
+                            break
+                    if bad:
+                        break
+            if bad:
+                fails.append(Failure("variants:filter", f"variant {vid} of a two-variant model returns a different {bad[0]} than the "
+                                     f"single-variant model with the same parameters", case, bad[1], bad[2], repro))
+                break
+    except Exception as e:  # noqa
+        fails.append(Failure("variants:raises", f"filtering a two-variant model raises {type(e).__name__}: {e}", case, repr(e)[:300]))
+    # non-default ways of asking for the same thing
+    try:
+        v = float(m.neg_log_likelihood(db, span, **opts))
+        if not close(v, nll, tol):
+            fails.append(Failure("options:neg_log_likelihood-method",
+                                 "Simultaneous.neg_log_likelihood differs from kalman_filter(...)[1]['neg_log_likelihood']",
+                                 case, v, nll, repro))
+        o2, i2 = m.kalman_filter(db, span, return_info=True, return_=("smooth", ), **opts)
+        d = None
+        for nm in model["tnames"] + model["shocks"] + model["mshocks"]:
+            a = _arr(out["smooth_med"][nm], span); b = _arr(o2["smooth_med"][nm], span)
+            if not all(close(float(y), float(x), tol) for x, y in zip(a, b)):
+                d = nm
+                break
+        if d or not close(float(i2["neg_log_likelihood"]), nll, tol):
+            fails.append(Failure("options:return_smooth_only",
+                                 "kalman_filter(return_=('smooth',)) differs from the smoothing step of the full run",
+                                 case, d or "neg_log_likelihood", "equal results", repro))
+        if not model["num_unit_roots"]:
+            for dm in ("fixed_zero", "approx_diffuse"):
+                _, i3 = m.kalman_filter(db, span, return_info=True, diffuse_method=dm, **opts)
+                if not close(float(i3["neg_log_likelihood"]), nll, tol):
+                    fails.append(Failure("options:diffuse_method",
+                                         f"diffuse_method={dm!r} changes the likelihood of a model without unit roots",
+                                         case, float(i3["neg_log_likelihood"]), nll, repro))
+                    break
+    except Exception as e:  # noqa
+        fails.append(Failure("options:raises", f"an equivalent call raises {type(e).__name__}: {e}", case, repr(e)[:300]))
     seen = set(); uniq = []
     for f in fails:
         if f.key not in seen:
